@@ -252,20 +252,20 @@ class Engine:
                 pass
         self.emit("%s#safe.%s" % (self.cur_func, label), goal, meta={"kind": "safety"})
         # after the check, the operation succeeded on this path
-        self.st.pc.append(goal)
+        self.st.pc.append(z3.Implies(z3.And(self.guards), goal) if self.guards else goal)
 
-    def prove(self, name, f, extra_hyps=(), meta=None):
-        """Prove formula IR `f` from the current state."""
+    def prove(self, name, f, extra_hyps=(), meta=None, sk=()):
+        """Prove formula IR `f` from the current state (sk: skolem constants introduced so far)."""
         if isinstance(f, FG):
-            self.emit(name, f.b, extra_hyps, meta=meta)
+            self.emit(name, f.b, extra_hyps, extra_terms=list(sk), meta=meta)
         elif isinstance(f, FAnd):
             for lab, p in zip(f.labels, f.parts):
-                self.prove(name + "." + lab if lab else name, p, extra_hyps, meta)
+                self.prove(name + "." + lab if lab else name, p, extra_hyps, meta, sk)
         elif isinstance(f, FImp):
-            self.prove(name, f.body, list(extra_hyps) + [f.g], meta)
+            self.prove(name, f.body, list(extra_hyps) + [f.g], meta, sk)
         elif isinstance(f, FAll):
             # bound variables are fresh constants already: they act as skolems
-            self.prove(name, f.body, list(extra_hyps) + [f.guard], meta)
+            self.prove(name, f.body, list(extra_hyps) + [f.guard], meta, list(sk) + list(f.vars))
         else:
             raise Unsupported("formula %r" % (f,))
 
